@@ -270,6 +270,9 @@ func (k *ASRep) Verify(cfg *config.Config, creds *credentials.Credentials, asReq
 		if !types.HostAddressesEqual(k.DecryptedEncPart.CAddr, asReq.ReqBody.Addresses) {
 			return false, krberror.NewErrorf(krberror.KRBMsgError, "addresses listed in the AS_REP does not match those listed in the AS_REQ")
 		}
+	} else if len(k.DecryptedEncPart.CAddr) > 0 {
+		// As for the TGS_REP: the reply must not bind the ticket to addresses that were not asked for
+		return false, krberror.NewErrorf(krberror.KRBMsgError, "addresses listed in the AS_REP although none were listed in the AS_REQ")
 	}
 	t := time.Now().UTC()
 	if t.Sub(k.DecryptedEncPart.AuthTime) > cfg.LibDefaults.Clockskew || k.DecryptedEncPart.AuthTime.Sub(t) > cfg.LibDefaults.Clockskew {
